@@ -395,6 +395,39 @@ func jobC03(c *rt.Ctx) {
 			}
 		}
 	}
+	// a key derived from the front of a larger buffer (a 64-byte KDF output, a record) that the caller
+	// wipes afterwards: its later signatures must verify under the public key it had when derived
+	c.Require("key-from-wiped-buffer")
+	for vi, vs := range []variantSpec{vPure, vCtx, vPh} {
+		for _, capacity := range []int{32, 64, 96} {
+			if !c.Take() {
+				continue
+			}
+			c.Class("key-from-wiped-buffer")
+			c.Distinct(fmt.Sprintf("wiped %d %d", vi, capacity), true)
+			buf := make([]byte, capacity)
+			copy(buf, seedOf(7100+vi))
+			for i := 32; i < capacity; i++ {
+				buf[i] = byte(i)
+			}
+			k := NewKeyFromSeed(buf[:32])
+			pub := append([]byte{}, k.Public().(PublicKey)...)
+			for i := range buf {
+				buf[i] = 0
+			}
+			msg := msgOf(3, vs)
+			sig, err := k.Sign(nil, msg, vs.opts(false))
+			c.Step(2)
+			t := triple{pub, msg, sig}
+			ok, pv := false, interface{}(nil)
+			if err == nil {
+				ok, pv = implSingleOpts(t, vs, false)
+			}
+			if err != nil || !ok || pv != nil || !bytes.Equal(pub, ref.Public(seedOf(7100+vi))) {
+				c.Violation("C03 key-from-wiped-buffer", fmt.Sprintf("key derived from a seed slice of capacity %d, buffer wiped afterwards: signature err=%v verifies=%v (%s)", capacity, err, ok, vs), map[string]interface{}{"capacity": capacity, "variant": vs.String()})
+			}
+		}
+	}
 	// the empty message handed over as a nil slice (Sign accepts it, so every verifier must): single
 	// verification in both modes and a member of batches at the first / last positions of every chunk
 	c.Require("nil-message")
